@@ -233,16 +233,37 @@ def run_symbolic_loop(it, coll, bind_target, run_body, body_stmts, env, f, ordin
     return finish_loop(it, k, n, results, env, entry_vars, collect, base_extra=1)
 
 
+def store_chain(t, base):
+    """Decompose t = Store(...Store(base, i1, v1)..., im, vm); returns [(i, v)] or None."""
+    chain = []
+    while not t.eq(base):
+        if z3.is_app_of(t, z3.Z3_OP_STORE):
+            arr, idx, val = t.children()
+            chain.append((idx, val))
+            t = arr
+        else:
+            return None
+    return chain
+
+
 def detect_modified(ctx, entry, entry_vars, results):
     _, heap0, store0, printed0, _ = entry
     vars_mod, heap_mod, store_mod = set(), set(), set()
     printed = False
+    refs0 = store0.get(("newrefs",), {"refs": ()})["refs"]
+    alloc_only = True
     for conds, kind, val, full in results:
         _, heap1, store1, printed1, _ = full
+        new = store1.get(("newrefs",), {"refs": ()})["refs"][len(refs0):]
         for h, t in heap1.items():
             if h not in heap0 or not heap0[h].eq(t):
+                ch = store_chain(t, heap0[h]) if h in heap0 else None
+                if h in ("D", "alloc") and ch is not None and all(any(i.eq(r) for r in new) for i, _ in ch):
+                    continue        # only cells of objects allocated in this very iteration
                 heap_mod.add(h)
         for sid, d in store1.items():
+            if sid == ("newrefs",):
+                continue
             if sid in store0:
                 d0 = store0[sid]
                 for fld, v in d.items():
@@ -286,6 +307,8 @@ def finish_loop(it, k, n, results, env, entry_vars, collect, base_extra=0, after
             ctx.assumptions.append(z3.ForAll([k], z3.Implies(z3.And(rng, *conds), z3.And(*facts))))
     if after_state is not None:
         after_state()
+    else:
+        alloc_post_state(ctx, k, n, results)
     # 3. loop-local variables disappear
     oks = [r for r in results if r[1] == "ok"]
     for conds, kind, val, full in oks:
@@ -326,6 +349,51 @@ def finish_loop(it, k, n, results, env, entry_vars, collect, base_extra=0, after
     return filter_seq(ctx, n, guard, value, sort)
 
 
+def alloc_post_state(ctx, k, n, results):
+    """Heap after a loop whose only heap effect is to allocate and initialise fresh objects:
+    pre-existing objects are unchanged, the object allocated in iteration k has the contents
+    the body gave it, and objects of different iterations are distinct."""
+    rng = in_range(k, n)
+    heap0 = dict(ctx.heap)
+    refs0 = ctx.store.get(("newrefs",), {"refs": ()})["refs"]
+    paths = []
+    for conds, kind, val, full in results:
+        if kind != "ok":
+            continue
+        new = full[2].get(("newrefs",), {"refs": ()})["refs"][len(refs0):]
+        if new:
+            paths.append((conds, full[1], new))
+    if not paths:
+        return
+    D0, A0 = heap0["D"], heap0["alloc"]
+    Dn = ctx.fresh("D_after", D0.sort())
+    An = ctx.fresh("alloc_after", A0.sort())
+    r = z3.Const("r!fr", V)
+    ctx.assumptions.append(z3.ForAll([r], z3.Implies(A0[r], z3.And(Dn[r] == D0[r], An[r])), patterns=[Dn[r]]))
+    ctx.assumptions.append(z3.ForAll([r], z3.Implies(A0[r], An[r]), patterns=[An[r]]))
+    k2 = z3.Int("k2!fr")
+    allrefs = []
+    for conds, heap1, new in paths:
+        for ref in new:
+            ctx.assumptions.append(z3.ForAll([k], z3.Implies(z3.And(rng, *conds), z3.And(
+                Dn[ref] == z3.simplify(heap1["D"][ref]), An[ref], z3.Not(A0[ref]))), patterns=[ref]))
+            allrefs.append(ref)
+    for i, ra in enumerate(allrefs):
+        for j, rb in enumerate(allrefs):
+            if j < i:
+                continue
+            rb2 = z3.substitute(rb, (k, k2))
+            if i == j:
+                ctx.assumptions.append(z3.ForAll([k, k2], z3.Implies(k != k2, ra != rb2),
+                                                 patterns=[z3.MultiPattern(ra, rb2)]))
+            else:
+                ctx.assumptions.append(z3.ForAll([k, k2], ra != rb2, patterns=[z3.MultiPattern(ra, rb2)]))
+    ctx.heap["D"] = Dn
+    ctx.heap["alloc"] = An
+    nr = ctx.store.get(("newrefs",), {"refs": ()})
+    ctx.store[("newrefs",)] = {"refs": nr["refs"]}
+
+
 def stateful_loop(it, coll, k, n, spec, modified, body_once, env, entry, entry_vars, f, ordinal, collect):
     """Loop with loop-carried state, cut at the contract's invariant."""
     from .interp import Instance
@@ -341,7 +409,7 @@ def stateful_loop(it, coll, k, n, spec, modified, body_once, env, entry, entry_v
         return LoopState(it, kterm, n, coll, vars_, entry_vars, heap, heap0, store, store0)
 
     # inv-init: invariant holds on entry with k = 0
-    ctx.prove(f"inv-init:{tag}", spec.inv(state(z3.IntVal(0), dict(env.vars), dict(ctx.heap), ctx.store)), kind="inv-init")
+    prove_parts(ctx, f"inv-init:{tag}", spec.inv(state(z3.IntVal(0), dict(env.vars), dict(ctx.heap), ctx.store)), "inv-init")
 
     # state at the head of iteration k: skolem functions of k (k is on ctx.loop_vars already)
     hv, hh, hs = {}, {}, {}
@@ -378,7 +446,7 @@ def stateful_loop(it, coll, k, n, spec, modified, body_once, env, entry, entry_v
         link_entry(ctx, k, hv, hh, hs, entry_vars, heap0, store0)
         install_state()
         head_vars = dict(env.vars)
-        inv_k = spec.inv(state(k, head_vars, dict(ctx.heap), ctx.store))
+        inv_k = conj(spec.inv(state(k, head_vars, dict(ctx.heap), ctx.store)))
         ctx.assume(inv_k)
         head = ctx.snapshot()
         ctx.assume(zint(k) < zint(n))
@@ -386,7 +454,7 @@ def stateful_loop(it, coll, k, n, spec, modified, body_once, env, entry, entry_v
         def thunk():
             vars_, out = body_once()
             goal = spec.inv(state(k + 1, vars_, dict(ctx.heap), ctx.store))
-            ctx.prove(f"inv-step:{tag}", goal, kind="inv-step")
+            prove_parts(ctx, f"inv-step:{tag}", goal, "inv-step")
             # the state sequence: s(k+1) is what the body computes from s(k)
             link_next(ctx, k, hv, hh, hs, vars_, ctx.heap, ctx.store)
             return vars_, out
@@ -406,11 +474,51 @@ def stateful_loop(it, coll, k, n, spec, modified, body_once, env, entry, entry_v
         # temporarily view the store at iteration k for the invariant
         saved_store = {kk: dict(vv) for kk, vv in ctx.store.items()}
         install_state()
-        inv_all = spec.inv(state(k, dict(env.vars), dict(ctx.heap), ctx.store))
-        ctx.assumptions.append(z3.ForAll([k], z3.Implies(z3.And(k >= 0, k <= zint(n)), inv_all)))
+        inv_all = conj(spec.inv(state(k, dict(env.vars), dict(ctx.heap), ctx.store)))
+        pats = state_patterns(k, list(hv.values()) + list(hh.values()) + list(hs.values()))
+        ctx.assumptions.append(z3.ForAll([k], z3.Implies(z3.And(k >= 0, k <= zint(n)), inv_all), patterns=pats))
         install_state(kterm=zint(n))
+        # explicit instance at the exit state
+        ctx.assumptions.append(conj(spec.inv(state(zint(n), dict(env.vars), dict(ctx.heap), ctx.store))))
     seg = finish_loop(it, k, n, results, env, entry_vars, collect, after_state=after)
     return seg
+
+
+def conj(f):
+    if isinstance(f, dict):
+        return z3.And(*f.values()) if f else z3.BoolVal(True)
+    if isinstance(f, (list, tuple)):
+        return z3.And(*f) if f else z3.BoolVal(True)
+    return f
+
+
+def prove_parts(ctx, name, f, kind):
+    """An invariant may be given as {label: conjunct}; each conjunct is its own obligation."""
+    if isinstance(f, dict):
+        for label, g in f.items():
+            ctx.prove(f"{name}/{label}", g, kind=kind)
+    elif isinstance(f, (list, tuple)):
+        for i, g in enumerate(f):
+            ctx.prove(f"{name}/{i}", g, kind=kind)
+    else:
+        ctx.prove(name, f, kind=kind)
+
+
+def state_patterns(k, values):
+    """Trigger terms for facts quantified over the iteration index: the skolem state at k."""
+    from .interp import SMap, SSet
+    pats = []
+    p = z3.Const("p!pat", V)
+    i = z3.Int("i!pat")
+    for v in values:
+        if is_z3(v):
+            pats.append(v)
+        elif isinstance(v, Seq) and is_z3(v.len):
+            pats.append(v.len)
+        elif isinstance(v, SMap):
+            pats.append(v.arr)
+    pats = [t for t in pats if any(c.eq(k) for c in t.children())]
+    return pats
 
 
 def link_entry(ctx, k, hv, hh, hs, entry_vars, heap0, store0):
